@@ -148,10 +148,13 @@ def chooseScheme (numComponents : Nat) (syms : List Nat) : Scheme :=
   let blUnique := (blFreqs.filter (· > 0)).length
   let taggedBits := shannonEntropyBits blFreqs bitLengths.length
     + approxTableBits blUnique blUnique + sumNat bitLengths * comps
+  -- since the `fix:` commit the raw estimate (a histogram of maxValue + 1 entries) is computed only
+  -- when the raw scheme can be selected
+  if bitLength maxValue > 18 then .tagged else
   let freqs := (countFreqs (maxValue + 1) syms).toList
   let numUnique := (freqs.filter (· > 0)).length
   let rawBits := approxTableBits maxValue numUnique + shannonEntropyBits freqs syms.length
-  if taggedBits < rawBits ∨ bitLength maxValue > 18 then .tagged else .raw
+  if taggedBits < rawBits then .tagged else .raw
 
 /-- `EncodeSymbols(symbols, num_values, num_components, options, target_buffer)` with the
     binary64 oracle: `forced` = option `symbol_encoding_method`, `level` = option
